@@ -95,6 +95,17 @@ def engine(E):
         return None
     Bn['__isinstance_ext__'] = _isinst_ext
 
+    def _zip(E_, a, k):
+        """zip(...) over the given awaitables AFTER they went to gather(): the caller's iterable is read a second time -- a
+        one-shot iterator is empty by then, a registry that tasks leave when done has shrunk: failures are cut off"""
+        at = E_.w.get('aws_term')
+        if at is not None and any(isinstance(x, VSeq) and z3.eq(x.t, at) for x in a):
+            E_.oblige(E_.cur_func + '/call.the_given_awaitables_are_read_once_by_gather_only', z3.BoolVal(False),
+                      props={'C20'}, detail='zip(aws, results): what is reported depends on what `aws` still yields afterwards')
+            raise PathEnd()
+        raise Unsupported('zip(%r)' % (a,))
+    Bn['zip'] = VStub('zip', _zip)
+
     def _any_all(name):
         def fn(E_, a, k):
             """any()/all() over the given awaitables: an Iterable may be one-shot -- looking at it consumes what
@@ -241,6 +252,7 @@ def t_gather_excs(E):
     def body():
         st.clear()
         aws = E.fresh('aws', VS)
+        E.w['aws_term'] = aws
         only = mk_only(E)
         st['only'] = only
         E.w['gen_out'] = z3.Empty(VS)
@@ -315,6 +327,7 @@ def t_raise_first_exc(E):
     def body():
         st.clear()
         aws = E.fresh('aws', VS)
+        E.w['aws_term'] = aws
         only = mk_only(E)
         E.cover(f.qualname + '/requires')
         E.canary(f.qualname + '/canary@entry')
